@@ -190,6 +190,9 @@ func (c *modsetCache) instrMods(fr *frame, fn *ssa.Function, ins ssa.Instruction
 }
 
 func (c *modsetCache) chanMods(ch ssa.Value, m *modSet) {
+	if g := c.e.db.Ghosts["chsent"]; g != nil && g.Key != nil {
+		m.keys[c.e.vc.keyGhostChan(g, ch.Type())] = true
+	}
 	load, ok := ch.(*ssa.UnOp)
 	if !ok {
 		return
@@ -285,6 +288,14 @@ func (c *modsetCache) callMods(fr *frame, fn *ssa.Function, cc *ssa.CallCommon, 
 					ptypes[pnames[idx+i]] = a.Type()
 				}
 				ptypes["a"+itoa(idx+i)] = a.Type()
+			}
+			if callee != nil {
+				for _, fv := range callee.FreeVars {
+					ptypes["captured:"+fv.Name()] = fv.Type()
+					if _, dup := ptypes[fv.Name()]; !dup {
+						ptypes[fv.Name()] = deref(fv.Type())
+					}
+				}
 			}
 			for _, ms := range ct.Mods {
 				c.modSpecKeys(ms, ptypes, m)
@@ -393,10 +404,18 @@ func (c *modsetCache) modSpecKeys(ms ModSpec, ptypes map[string]types.Type, m *m
 			return
 		}
 		c.keysOfType(deref(t), m.keys)
+	case "captured":
+		if t := ptypes["captured:"+ms.Name]; t != nil {
+			c.keysOfType(deref(t), m.keys)
+		} else {
+			m.heapAll = true
+			m.why = "captured variable " + ms.Name
+		}
 	case "map", "mapkey":
 		t := staticTypeOf(ms.Expr, ptypes)
 		if t == nil {
 			m.heapAll = true
+			m.why = "untyped modifies " + ms.Text
 			return
 		}
 		if mt, ok := t.Underlying().(*types.Map); ok {
